@@ -1,6 +1,32 @@
 """Table behind MANIFEST.json (tools/mkmanifest.py writes the file)."""
 
 CHECKS = {
+    'C14': {
+        'technique': 'static analysis: dispatch-table agreement (every switch on the value type vs. to_data_type<T> of the instantiated callee), '
+                     'discriminating-power rule for the type guard (compared observables must separate all 7 value types in the HDF5 type '
+                     'table), dominance rules (all elements typed before resize, resize = number of values), per-instantiation shape rule '
+                     'for do_write_value/do_read_value, tagged-union typestate rule for Variant, storage-key agreement',
+        'text': 'Decides structural necessary conditions of C14: DataType E is written, read, typed in the file, read old-style, converted '
+                'from Value and copied/compared inside Variant through the C type of E; an assignment is refused unless the given type '
+                'equals the stored type under a test that separates Bool/Int32/UInt32/Int64/UInt64/Double/String, and every element has that '
+                'type, before the data set is resized to values.size(); all values are converted with get<T> and transferred over the whole '
+                'data set with the memory type of T, strings copied out before vlen reclaim; clearing sets extent 0; Variant keeps tag and '
+                'member in agreement and owns its C string exactly when the tag is String; unit/uncertainty/definition keys agree. Equality '
+                'of particular values (NaN, extremes, UTF-8 bytes) through libhdf5 conversion is NOT decided.',
+    },
+    'C15': {
+        'technique': 'static analysis: cell codec table agreement (Janus copyValue/copyData vs. to_data_type<T>), def-use rule for compound '
+                     'layouts (offsets come from one monotone unsigned running sum, one assignment site), shape/ordering rules for row, cell and '
+                     'column I/O, abstract interpretation (all paths) of column access and of the front-end column templates, dominance rule for '
+                     'createDataFrame column checks',
+        'text': 'Decides structural necessary conditions of C15: a cell of DataType E moves through a C object of the type of E with its own size; '
+                'member order equals offset order in every compound built for frame I/O (index-wise decoding reads the requested column); row/cell '
+                'access transfers exactly row r, decodes before vlen reclaim and returns the decoded vector; readRow asks for all members in order, '
+                'writeRow pairs value k with member k; rows(n) sets extent n; column access uses (name, 0, memtype(dtype)) on the selection '
+                '(count, offset) and marshals strings; schema name/type/unit stay on one index; unsupported types and duplicate names are refused '
+                'before anything is created; the backend is never handed a count the vector does not cover. Cell values over all write histories '
+                'and the zero/empty fill of unwritten cells are libhdf5 behaviour: NOT decided.',
+    },
     'C01': {
         'technique': 'static analysis: writer/reader table agreement (DataType <-> HDF5 file/memory type, decoder, element size, to_data_type<T>) by '
                      'decision-table extraction; abstract interpretation (all abstract paths) of DataArray::ioRead/ioWrite/appendData and of the '
